@@ -212,7 +212,7 @@ def run_property(prop, tier, master, runs=None, workers=None, out=sys.stdout):
         ctx = multiprocessing.get_context("fork")
         with cf.ProcessPoolExecutor(max_workers=workers, mp_context=ctx) as ex:
             try:
-                for r in ex.map(_chunk, chunks, timeout=CHUNK_TIMEOUT_S * 4):
+                for r in ex.map(_chunk, chunks, timeout=6 * 3600):
                     results.append(r)
             except (cf.process.BrokenProcessPool, cf.TimeoutError) as e:
                 print(f"HARNESS-ERROR: property={prop} worker pool failed: {e!r}", file=out)
